@@ -13,6 +13,9 @@ func NewState(cfg *Cfg, root reflect.Value, open func([]byte, int) reflect.Value
 	// the negative-zero defects (negzero-setter, negzero-clone, CopyFromSlice) are repaired in
 	// /repo: nothing is avoided any more, a regression must be reported
 	cfg.AllowNegZero = true
+	// setter-clone-unlinked and copyfrom-over-shared are repaired too (43ba0d9)
+	cfg.AllowCloneUnlinked = true
+	cfg.AllowCopyOverShared = true
 	st := &State{Cfg: cfg, Pool: map[string][]*ObjSpec{}, Stats: map[string]int{}}
 	st.Env = NewEnv(root.Type().Elem(), &st.AltCalls, open)
 	return st
@@ -21,6 +24,8 @@ func NewState(cfg *Cfg, root reflect.Value, open func([]byte, int) reflect.Value
 // ReplayState creates a state for replaying recorded calls of a history generated with gen.
 func ReplayState(cfg *Cfg, gen *State) *State {
 	cfg.AllowNegZero = true
+	cfg.AllowCloneUnlinked = true
+	cfg.AllowCopyOverShared = true
 	st := &State{Cfg: cfg, Stats: map[string]int{}}
 	st.Env = NewEnv(gen.Env.RootType, &gen.AltCalls, gen.Env.OpenReader)
 	return st
@@ -380,23 +385,11 @@ func (g *gen) mutDictField(v reflect.Value, f Field, nav []NavStep, depth int, s
 		if x >= 7 && x < 15 {
 			x = 0
 		}
-	} else if g.st.MaybeFrozen(nav, n) && !cfg.AllowCloneUnlinked && x < 7 {
-		x = 7 // only frozen values may replace a (possibly) shared one
-	} else if cfg.AllowCloneUnlinked && g.st.MaybeFrozen(nav, n) {
-		x = 0
+	} else if cfg.ForceCloneUnlinked && g.st.MaybeFrozen(nav, n) {
+		x = 0 // focused runs: an unfrozen value replaces a (possibly) shared one
 	}
-	if cfg.GenSafe && g.main && len(nav) > 0 && hasCompositeField(f.Type) {
-		// The field may hold the frozen shared empty value installed by reset() (array elements,
-		// oneof alternatives, optional structs): Set<F>(unfrozen v) would clone it without parent
-		// links and the marks of v's nested arrays/oneofs/multimaps would be lost
-		// (setter-clone-unlinked). Only frozen values are assigned there.
-		if !canFreeze || cfg.NoFrozen {
-			return
-		}
-		if x < 7 || x >= 15 {
-			x = 7
-		}
-	}
+	// (an unfrozen value over a shared one was avoided here - setter-clone-unlinked - until it was
+	// repaired in /repo by 43ba0d9)
 	switch {
 	case x < 7 || !canFreeze:
 		arg, kind = g.newObject(f.Type, pt, false, depth, stack), "fresh"
